@@ -140,6 +140,9 @@ func (ex *Exec) timeNanos(t string) string {
 // ---------------------------------------------------------------- locks (sequential bookkeeping; permissions in locks.go)
 
 func (ex *Exec) lockOp(mu string, mode int, acquire bool, pos token.Pos) {
+	if !strings.HasPrefix(mu, "(sub ") {
+		ex.nopanic("nopanic.nil", pos, "(not (= "+mu+" 0))", "mutex pointer is not nil")
+	}
 	st := ex.curState
 	held := ex.get(st, "HELD", "(Array Int Int)")
 	cur := sSel(held, mu)
